@@ -1,7 +1,7 @@
 (** C17 - the reported distance d is the true code distance: the minimum weight of a Pauli operator
     that commutes with all stabilizers and acts non-trivially on the logical qubits. *)
 From Coq Require Import NArith List Bool.
-From PQ Require Import Bits Pauli Code Operator Deform Distance.
+From PQ Require Import Bits Pauli Code Operator Deform Distance DistanceFast.
 
 (** the verified exhaustive search: no operator of weight < d (among ALL 4^n) is a logical, and a
     logical of weight exactly d exists *)
@@ -34,3 +34,9 @@ Theorem C17_deformed_code_same_distance :
   Distance c d -> Distance (deform D c) d.
 Proof. exact distance_deform. Qed.
 Print Assumptions C17_deformed_code_same_distance.
+
+(** the same checker with an incrementally maintained syndrome (one xor per added qubit): proved to
+    compute exactly the verdicts of the plain search, hence sound for the same statement *)
+Theorem C17_fast_css_distance_checker_sound : forall c d w, distance_ok_css_fast c d w = true -> Distance c d.
+Proof. exact distance_ok_css_fast_sound. Qed.
+Print Assumptions C17_fast_css_distance_checker_sound.
